@@ -8,6 +8,9 @@
 (* One action per reactor callback (each callback is atomic in Twisted):   *)
 (*   Run      fe.api.cmd_run -> schedule.organize                          *)
 (*   Tick     farm.dispatch  -> schedule.next_job_batch, farm._put, place  *)
+(*   TickFault  the same callback when something in its loop raises (the   *)
+(*            code expects rerunid() / the database to throw): the jobs    *)
+(*            not reached stay in farm._jobs and are retried next time     *)
 (*   Reply    farm.Hand._res -> schedule.complete, update | purge          *)
 (*   Reload   state.FSM.load -> farm.clear, schedule.build                 *)
 (*                                                                         *)
@@ -26,6 +29,7 @@ CONSTANTS Alg,        \* algorithm tags, e.g. {"t0.a","t1.b","t2.c"}
           Programs,   \* set of [kind : [Alg -> Kinds], ins : [Alg -> SUBSET (Alg \X Val)], vals : [Alg -> SUBSET Val]]
           MaxRun,     \* bound on external run requests
           MaxReload,  \* bound on reloads
+          MaxFault,   \* bound on dispatch passes that are cut short by an exception
           Pinned      \* TRUE: pinned-tree deviations (findings 1, 2, 12)
 
 ALL == "__all__"
@@ -37,15 +41,18 @@ VARIABLES prog,      \* the program (constant along a behaviour)
           todo,      \* [Alg -> SUBSET Tg]  node attribute 'todo'
           doing,     \* [Alg -> SUBSET Tg]  node attribute 'doing'
           hand,      \* [Alg -> SUBSET Tg]  node attribute 'handed' (fix for finding 12; unused when Pinned)
+          held,      \* [Alg -> SUBSET Tg]  released (in 'doing') but no task message made yet: node attribute 'do' of
+                     \*                     the jobs left in farm._jobs by a dispatch pass that raised
           que,       \* SUBSET Alg          schedule.que (order abstracted)
           fly,       \* [Alg \X Tg -> Nat]  GROUND TRUTH: task messages handed out and not yet answered
           stale,     \* [Alg \X Tg -> Nat]  in flight but released before the last reload
           nrec,      \* number of completion records appended (chronicle)
           ndrop,     \* number of replies for work released since the last load that were discarded
           runs,      \* external run requests used
-          reloads    \* reloads used
+          reloads,   \* reloads used
+          faults     \* dispatch passes cut short
 
-vars == <<prog, todo, doing, hand, que, fly, stale, nrec, ndrop, runs, reloads>>
+vars == <<prog, todo, doing, hand, held, que, fly, stale, nrec, ndrop, runs, reloads, faults>>
 
 -----------------------------------------------------------------------------
 (* Derived program structure -- declarative, NOT a transcription of dag.py *)
@@ -115,6 +122,7 @@ Release == [a \in Alg |-> IF a \in que THEN Avail(a) ELSE {}]
 Init ==
     /\ prog \in { WithClosure(p) : p \in Programs }
     /\ todo = [a \in Alg |-> {}] /\ doing = [a \in Alg |-> {}] /\ hand = [a \in Alg |-> {}]
+    /\ held = [a \in Alg |-> {}] /\ faults = 0
     /\ que = {}
     /\ fly = [u \in Alg \X Tg |-> 0] /\ stale = [u \in Alg \X Tg |-> 0]
     /\ nrec = 0 /\ ndrop = 0 /\ runs = 0 /\ reloads = 0
@@ -124,16 +132,29 @@ Run(S, T) ==
     /\ runs' = runs + 1
     /\ todo' = OrganizeTodo(todo, S, T)
     /\ que' = OrganizeQue(que, todo', doing, hand, S)
-    /\ UNCHANGED <<prog, doing, hand, fly, stale, nrec, ndrop, reloads>>
+    /\ UNCHANGED <<prog, doing, hand, held, fly, stale, nrec, ndrop, reloads, faults>>
 
-Tick ==
-    LET rel == Release IN
-    /\ \E a \in Alg : rel[a] # {}
+(* farm.dispatch: _jobs.extend(next_job_batch()); then job by job (the ones left over from a pass that raised
+   first) a task message per target of its 'do' set.  P = the jobs whose messages get made in this pass. *)
+Cands == { a \in Alg : Release[a] \cup held[a] # {} }
+TickPut(P) ==
+    LET rel == Release
+        put == [a \in Alg |-> IF a \in P THEN rel[a] \cup held[a] ELSE {}]
+    IN
     /\ todo'  = [a \in Alg |-> todo[a] \ rel[a]]
     /\ doing' = [a \in Alg |-> doing[a] \cup rel[a]]
-    /\ hand'  = IF Pinned THEN hand ELSE [a \in Alg |-> hand[a] \cup rel[a]]
-    /\ fly'   = [u \in Alg \X Tg |-> IF u[2] \in rel[u[1]] THEN fly[u] + 1 ELSE fly[u]]
+    /\ held'  = [a \in Alg |-> IF a \in P THEN {} ELSE held[a] \cup rel[a]]
+    /\ hand'  = IF Pinned THEN hand ELSE [a \in Alg |-> hand[a] \cup put[a]]
+    /\ fly'   = [u \in Alg \X Tg |-> IF u[2] \in put[u[1]] THEN fly[u] + 1 ELSE fly[u]]
     /\ UNCHANGED <<prog, que, stale, nrec, ndrop, runs, reloads>>
+
+Tick == Cands # {} /\ TickPut(Cands) /\ UNCHANGED faults
+
+TickFaultP(P) ==    \* the pass raises before every job has been served
+    /\ faults < MaxFault /\ faults' = faults + 1
+    /\ P \subseteq Cands /\ P # Cands
+    /\ TickPut(P)
+TickFault == \E P \in SUBSET Alg : TickFaultP(P)
 
 (* schedule.complete applied to doing/hand/que *)
 CompleteDoing(a, t) == [doing EXCEPT ![a] = IF t = ALL THEN {} ELSE @ \ {t}]
@@ -152,11 +173,11 @@ Reply(a, t, out, new, old) ==
        /\ stale' = IF isStale THEN [stale EXCEPT ![<<a, t>>] = @ - 1] ELSE stale
        /\ IF isStale /\ ~Pinned
           THEN \* fix (finding 14): a result of work released before the last (re)load is ignored
-               UNCHANGED <<todo, doing, hand, que, nrec, ndrop>>
+               UNCHANGED <<todo, doing, hand, held, que, nrec, ndrop>>
           ELSE IF a \notin que
           THEN \* schedule.find raises IndexError: "Could not find job"
                /\ ndrop' = IF isStale THEN ndrop ELSE ndrop + 1
-               /\ UNCHANGED <<todo, doing, hand, que, nrec>>
+               /\ UNCHANGED <<todo, doing, hand, held, que, nrec>>
           ELSE LET dg == CompleteDoing(a, t)
                    hd == CompleteHand(a, t)
                    q1 == IF Idle(todo, dg, hd, a) THEN que \ {a} ELSE que
@@ -165,16 +186,18 @@ Reply(a, t, out, new, old) ==
                    /\ IF IsOk(out)
                       THEN LET S  == Consumers(a, new)
                                td == OrganizeTodo(todo, S, {t})
-                           IN  /\ todo' = td /\ doing' = dg /\ hand' = hd
+                           IN  /\ todo' = td /\ doing' = dg /\ hand' = hd /\ held' = held
                                /\ que' = IF S = {} /\ Pinned THEN q1    \* organize([]) rebuilds the same queue
                                          ELSE OrganizeQue(q1, td, dg, hd, S)
                       ELSE LET P  == PurgeSet(a)
                                td == [x \in Alg |-> IF x \in P THEN todo[x] \ {t} ELSE todo[x]]
                                dp == [x \in Alg |-> IF x \in P THEN dg[x] \ {t} ELSE dg[x]]
                            IN  /\ todo' = td /\ doing' = dp /\ hand' = hd
+                               \* work withdrawn before its message was made is simply gone (it was never handed out)
+                               /\ held' = [x \in Alg |-> IF x \in P THEN held[x] \ {t} ELSE held[x]]
                                /\ que' = IF Pinned THEN q1
                                          ELSE { x \in q1 : ~Idle(td, dp, hd, x) }    \* fix (finding 2)
-    /\ UNCHANGED <<prog, runs, reloads>>
+    /\ UNCHANGED <<prog, runs, reloads, faults>>
 
 (* state.FSM.load: farm.clear() + schedule.build() -- fresh graph, empty queue;
    units in flight stay in flight and will answer later (stale).  S = the set
@@ -184,15 +207,15 @@ Reload(S) ==
     /\ reloads' = reloads + 1
     /\ stale' = fly
     /\ todo' = [a \in Alg |-> IF a \in S THEN (IF IsAsp(a) THEN {ALL} ELSE Targets) ELSE {}]
-    /\ doing' = [a \in Alg |-> {}] /\ hand' = [a \in Alg |-> {}]
+    /\ doing' = [a \in Alg |-> {}] /\ hand' = [a \in Alg |-> {}] /\ held' = [a \in Alg |-> {}]     \* farm.clear(): _jobs too
     /\ que' = OrganizeQue({}, todo', doing', hand', S)
-    /\ UNCHANGED <<prog, fly, nrec, ndrop, runs>>
+    /\ UNCHANGED <<prog, fly, nrec, ndrop, runs, faults>>
 
 RunChoices == { S \in SUBSET Alg : Cardinality(S) \in 1..2 }
 
 Next ==
     \/ \E S \in RunChoices, T \in SUBSET Tg : Run(S, T)
-    \/ Tick
+    \/ Tick \/ TickFault
     \/ \E a \in Alg, t \in Tg, out \in Outcomes : \E new \in SUBSET prog.vals[a], old \in BOOLEAN : Reply(a, t, out, new, old)
     \/ \E S \in SUBSET Alg : Reload(S)
 
@@ -205,12 +228,16 @@ FairSpec == Spec /\ WF_vars(Tick) /\ WF_vars(\E a \in Alg, t \in Tg : \E new \in
 
 TypeOK ==
     /\ todo \in [Alg -> SUBSET Tg] /\ doing \in [Alg -> SUBSET Tg] /\ que \subseteq Alg
+    /\ \A a \in Alg : held[a] \subseteq doing[a]
 
 Released(a, t) == fly'[<<a, t>>] > fly[<<a, t>>]
 Answered(a, t) == fly'[<<a, t>>] < fly[<<a, t>>]
 
 (* C01: a unit released in this step was not blocked in the pre-state *)
-C01_Release == [][ \A a \in Alg, t \in Tg : Released(a, t) => ~Blocked(a, t) ]_vars
+Decided(a, t) == t \in doing'[a] /\ t \notin doing[a]          \* next_job_batch let it go (its message may be made later)
+C01_Release == [][ \A a \in Alg, t \in Tg : ((Released(a, t) /\ t \notin held[a]) \/ Decided(a, t)) => ~Blocked(a, t) ]_vars
+(* only what was pending is ever handed out *)
+C03_ReleasedWasPending == [][ \A a \in Alg, t \in Tg : Released(a, t) => t \in todo[a] \cup held[a] ]_vars
 
 (* C03 *)
 C03_OneAtATime == \A u \in Alg \X Tg : fly[u] - stale[u] <= 1
@@ -219,7 +246,7 @@ C03_ReplyRecorded ==
     [][ \A a \in Alg, t \in Tg : (Answered(a, t) /\ stale[<<a, t>>] = 0) => nrec' = nrec + 1 ]_vars
 
 (* C04 *)
-NothingPending == (\A a \in Alg : todo[a] = {}) /\ (\A u \in Alg \X Tg : fly[u] = stale[u])
+NothingPending == (\A a \in Alg : todo[a] = {} /\ held[a] = {}) /\ (\A u \in Alg \X Tg : fly[u] = stale[u])
 C04_IdleEmpty  == NothingPending => que = {}
 Eligible(a, t) == t \in todo[a] /\ ~Blocked(a, t) /\ ~Executing(a, t)
 (* state form of "released by the next dispatch": the release function of the
@@ -227,10 +254,12 @@ Eligible(a, t) == t \in todo[a] /\ ~Blocked(a, t) /\ ~Executing(a, t)
 C04_Progress == \A a \in Alg, t \in Tg : Eligible(a, t) => (a \in que /\ t \in Avail(a))
 C04_ProgressStep ==
     [][ (\E u \in Alg \X Tg : fly'[u] > fly[u]) =>
-          \A a \in Alg, t \in Tg : Eligible(a, t) => Released(a, t) ]_vars
+          \A a \in Alg, t \in Tg : Eligible(a, t) => (Released(a, t) \/ t \in held'[a]) ]_vars
+(* a pass that does not raise leaves nothing behind *)
+C04_HeldFlushed == [][ (faults' = faults /\ \E u \in Alg \X Tg : fly'[u] > fly[u]) => \A a \in Alg : held'[a] = {} ]_vars
 (* no stuck state: pending work with nothing in flight must enable Tick *)
 C04_NoStuck ==
-    ((\E a \in Alg : todo[a] # {}) /\ (\A u \in Alg \X Tg : fly[u] = 0)) => \E a \in Alg : Release[a] # {}
+    ((\E a \in Alg : todo[a] \cup held[a] # {}) /\ (\A u \in Alg \X Tg : fly[u] = 0)) => Cands # {}
 C04_Quiesce == <>[](que = {} /\ \A u \in Alg \X Tg : fly[u] = 0)
 
 (* C05 *)
